@@ -6,9 +6,11 @@ Executable contract of property C13 wrapped around
 (armi/reactor/converters/geometryConverters.py, imported from the tree under test; nothing is re-implemented).
 
 A *case* is a JSON-able descriptor
-    {"rings": n, "holes": [[i,j],...], "pseed": s, "flags": "fresh"|"cleared", "ops": "CRAX...", "reseed": [op indices]}
+    {"rings": n, "holes": [[i,j],...], "pseed": s, "flags": "fresh"|"cleared", "ops": "CRAX...", "reseed": [op indices], "track": bool}
 = the default hex third-core test reactor cut down to n rings, the listed cells removed (assembly map with holes), block
-parameters / compositions seeded from pseed, then the operations applied in order with ONE changer object of each kind
+parameters / compositions seeded from pseed, assembly tracking off or on (track: reactor loaded with cs trackAssems=True and its spent
+fuel pool present; restore / remove-edge purge with Core.removeAssembly(a, discharge=False), whose name-table clean-up must hold in
+both modes), then the operations applied in order with ONE changer object of each kind
 (C convert, R restorePreviousGeometry, A addEdgeAssemblies, X removeEdgeAssemblies, Y = solver-like half-hex rewrite of
 the symmetry-line blocks + scaleParamsRelatedToSymmetry + removeEdgeAssemblies).  After every operation the clauses of
 the state the statement prescribes are checked against the snapshot of the third-core model ("third-core values").
@@ -35,8 +37,13 @@ Violation ids (stable; one per clause)
     edge.lookups-added  edge.names-unique                                                                   (while edge assemblies are present)
     edge.scale-undone.{symmetry,same-assemblies,params,list-param,flux,lookups,mass-volume}                 (A, half-hex values, scale, X)
 Circumstance suffixes (features of the input, appended so that a known finding cannot mask the clause in general):
-    full.integrated-x3.flags-cleared   the SINCE_LAST_GEOMETRY_TRANSFORMATION assignment flag was reset before this conversion
-    full.integrated-x3.reused-changer  not the first conversion by this changer object
+    full.integrated-x3.flags-cleared.centre-first-in-order   the SINCE_LAST_GEOMETRY_TRANSFORMATION assignment flag was reset earlier
+                                       (explicitly or by an addEdgeAssemblies call) AND the centre assembly is the first assembly in
+                                       location order (k, j, i) at convert time (2-ring core, or no cell with j < 0 such as (2,-1))
+    full.integrated-x3.flags-cleared.centre-not-first        same flag history, centre not first (or absent)
+    full.integrated-x3.reused-changer  not the first conversion by this changer object AND every failing parameter name was written for
+                                       the first time ever after that first conversion; any other failure under a reused changer gets
+                                       the flags-cleared.* or the plain id
     restore.<clause>.centre-only       the third-core model consists of the centre assembly only
     restore.<clause>.no-centre         the third-core model has no centre assembly
     restore.same-assemblies.edge-present   edge assemblies were present before convert and are not back after restore
@@ -67,14 +74,16 @@ from armi.reactor.tests.test_reactors import loadTestReactor, reduceTestReactorR
 B = Bounded(
     rule="case = (ring count n of the default hex third-core test reactor, hole pattern from 8 seeded strategies incl. centre / "
     "symmetry-line / edge-detection-cell / all-negative-j / sparse holes, seeded block-parameter (volume-integrated and not; scalar, "
-    "array, list, None) + composition + temperature state, assignment-flag history fresh|cleared, operation word over {C convert, "
+    "array, list, None) + composition + temperature state, assignment-flag history fresh|cleared, assembly tracking off|on (cs trackAssems, "
+    "spent fuel pool present; both modes in every scenario family), operation word over {C convert, "
     "R restore, A add-edge, X remove-edge, Y half-hex rewrite+scale+remove-edge} applied with one changer object of each kind, optional "
     "re-seed of parameters between two operations); every clause of the statement is evaluated after every operation; "
-    "distinct = (rings, holes, pseed, flags, ops); non-trivial = at least one operation changes the assembly set",
+    "distinct = (rings, holes, pseed, flags, ops, track); non-trivial = at least one operation changes the assembly set",
     bound="quick: rings 1-5 with holes (27 single-clause cases CR / AX / AY) + one 9-ring CR; on a 3-ring core all 20 words of length <= 2 "
-    "over {C,R,A,X}, 10+10 seeded words of length 3 and 4, 5 named words on 2-4 rings. thorough: rings 1-9 (about 250 single-clause "
-    "cases over all hole strategies and both flag histories), all 340 words of length <= 4 on 3 rings, all 84 words of length <= 3 on "
-    "2 rings, 80 seeded 4-letter words incl. Y on 4-5 rings with holes.  Only the default test reactor's assembly designs; hex third-core only",
+    "over {C,R,A,X}, 7+7 seeded words of length 3 and 4, 4 removing words repeated in the other tracking mode, 7 named words on 2-4 rings; "
+    "tracking alternates within each (family, ring count), tracked cases on rings 2-4. thorough: rings 1-9 (about 250 single-clause "
+    "cases over all hole strategies and both flag histories), all 340 words of length <= 4 on 3 rings with tracking alternating and the 84 words of length <= 3 in both modes, all 84 words "
+    "of length <= 3 on 2 rings, 80 seeded 4-letter words incl. Y on 4-5 rings with holes.  Only the default test reactor's assembly designs; hex third-core only",
 )
 RTOL = 1e-9
 CACHE = {"volume"}  # Component.p.volume is the getVolume() cache (None = not computed), not model state
@@ -278,6 +287,18 @@ BASES = {}
 FLAGS0 = {}
 
 
+def clone(r):
+    """copy.deepcopy(reactor), with the spent fuel pool registered again: ExcoreCollection.__deepcopy__ copies the attributes of the
+    collection but not its dictionary items, so the copy's r.excore would not know the (copied) pool that is among the reactor's children."""
+    from armi.reactor.spentFuelPool import SpentFuelPool
+
+    r2 = copy.deepcopy(r)
+    for ch in r2.getChildren():
+        if isinstance(ch, SpentFuelPool) and r2.excore.get("sfp") is None:
+            r2.excore["sfp"] = ch
+    return r2
+
+
 def fresh(rings, track=False):
     """A private copy of the n-ring third-core test reactor; track=True: loaded with cs trackAssems=True (spent fuel pool present)."""
     if (9, track) not in BASES:
@@ -287,14 +308,23 @@ def fresh(rings, track=False):
         BASES[(9, track)] = (o, r)
     if (rings, track) not in BASES:
         o, r9 = BASES[(9, track)]
-        r = copy.deepcopy(r9)
+        r = clone(r9)
+        # cutting the test reactor down is set-up, not the scenario: purge the outer rings (instead of piling ~70 assemblies into the
+        # pool, which every later deepcopy would drag along); the pool keeps its initial content and tracking is on again afterwards
+        r.core._trackAssems = False
         reduceTestReactorRings(r, o.cs, max(rings, 2))
         if rings == 1:
             for a in [a for a in r.core if cell_of(a) != CENTRE]:
                 r.core.removeAssembly(a, discharge=False)
+        sfp = r.excore.get("sfp")
+        if sfp is not None and len(sfp) > 4:  # a pool with a few assemblies is enough; name tables rebuilt by armi's own regeneration
+            for a in list(sfp)[4:]:
+                sfp.remove(a)
+            r.core.regenAssemblyLists()
+        r.core._trackAssems = track
         BASES[(rings, track)] = (o, r)
     o, r = BASES[(rings, track)]
-    r2 = copy.deepcopy(r)
+    r2 = clone(r)
     for pd, v in FLAGS0.items():  # assignment flags are process-global: give every case the post-load history
         pd.assigned = v
     return o, r2
@@ -1015,7 +1045,7 @@ def main():
             if B.replay is not None:
                 c = Case(B.replay)
                 c.run()
-                print(json.dumps({"result": "fail" if c.fired else "pass", "violations": c.fired, "details": [[v["id"], v["input"]["detail"]] for v in B.violations], "input": B.replay}, default=str))
+                print(json.dumps({"result": "fail" if c.fired else "skipped" if B.extra["skipped"] else "pass", "violations": c.fired, "details": [[v["id"], v["input"]["detail"]] for v in B.violations], "skipped": B.extra["skipped"], "input": B.replay}, default=str))
                 return
             budget = 1150.0 if B.thorough() else 85.0
             todo = cases()
